@@ -97,3 +97,8 @@ impl From<core::array::TryFromSliceError> for StunError {
     #[verifier::external_body]
     fn from(e: core::array::TryFromSliceError) -> StunError { unimplemented!() }
 }
+//@item! stun_rs :: mod error > struct StunAttributeError
+//@item! stun_rs :: mod error > struct StunMessageError
+//@item! stun_rs :: mod error > enum StunErrorLevel
+//@item! stun_rs :: mod error > struct StunDecodeError
+//@item! stun_rs :: mod error > struct StunEncodeError
